@@ -276,8 +276,12 @@ def execute(case, ctx):
                 # earlier slices is lost (pinned by an existing test) -> marginals of slices below a queried slice s >= 1 are wrong
                 if op["op"] in ("query", "backward") and T >= 1:
                     later = any(s_ > t and s_ >= 1 for (_, s_) in qs)
+                    ev_src = any(a_ in src for (a_, _) in ev)
                     if later:
                         sig = f"{PROP}:value:smoothing_below_a_queried_slice"
+                    elif ev_src:
+                        # (b) evidence on a forward-interface variable is mishandled by the backward pass (pinned by an existing test too)
+                        sig = f"{PROP}:value:smoothing_with_evidence_on_interface_variable"
                 ctx.fail("marginals", sig, {"q": [a, t], "ev": sorted(ev.items()), "got": np.asarray(got).round(6).tolist(), "want": want.round(6).tolist(),
                                             "inter": case["inter"], "intra": case["intra"], "regime": regime})
                 break
